@@ -54,6 +54,14 @@ def maskFill (s : Store α) (k : Nat) (m : Mask) (v : α) : Store α :=
 def maskCopy (s : Store α) (dst : Nat) (m : Mask) (src : Nat) : Store α :=
   s.set dst (fun r c => if m r c then s.arr src r c else s.arr dst r c)
 
+/-- `a[mask] |= c` on an integer array -/
+def maskOr (s : Store Nat) (k : Nat) (m : Mask) (c : Nat) : Store Nat :=
+  s.set k (fun r c' => if m r c' then s.arr k r c' ||| c else s.arr k r c')
+
+/-- `a[mask] += c` on an integer array -/
+def maskAdd (s : Store Nat) (k : Nat) (m : Mask) (c : Nat) : Store Nat :=
+  s.set k (fun r c' => if m r c' then s.arr k r c' + c else s.arr k r c')
+
 /-- a store holding the given arrays at identities 0, 1, … -/
 def init (as : List (Arr α)) (dflt : Arr α) : Store α :=
   { arr := fun k => as.getD k dflt, next := as.length }
